@@ -19,13 +19,13 @@ type pr struct {
 }
 
 type kase struct {
-	slot int // worker announcing this case to the progress watchdog (not part of the case)
-	Pairs    []pr   `json:"pairs"`  // in insertion order
-	Flip     []bool `json:"flip"`   // insert pair i as (B,A)
-	Filter   int    `json:"filter"` // 0 nil, 1 all, 2 none, 3 by score (even pairs)
-	Twice    bool   `json:"twice"`  // call Piles a second time (after a 'none' call)
+	slot     int    // worker announcing this case to the progress watchdog (not part of the case)
+	Pairs    []pr   `json:"pairs"`            // in insertion order
+	Flip     []bool `json:"flip"`             // insert pair i as (B,A)
+	Filter   int    `json:"filter"`           // 0 nil, 1 all, 2 none, 3 by score (even pairs)
+	Twice    bool   `json:"twice"`            // call Piles a second time (after a 'none' call)
 	Before   []int  `json:"before,omitempty"` // filters of earlier Piles calls on the same piler
-	Redo     int    `json:"redo"`   // after all, add pair Redo again (-1: no), flipped if RedoFlip
+	Redo     int    `json:"redo"`             // after all, add pair Redo again (-1: no), flipped if RedoFlip
 	RedoFlip bool   `json:"redoflip"`
 }
 
@@ -168,6 +168,14 @@ func check(c *enum.Ctx, k kase) {
 			return func(*pals.Pair) bool { return false }
 		case 3:
 			return func(fp *pals.Pair) bool { return fp.Score%2 == 0 }
+		case 4:
+			// a filter that looks at the piles the two images lie on (as the package's own coverage filter
+			// does): both piles at least two positions long.  Every image is on its pile before any pair is judged.
+			return func(fp *pals.Pair) bool {
+				pa, oka := fp.A.Location().(*pals.Pile)
+				pb, okb := fp.B.Location().(*pals.Pile)
+				return oka && okb && pa.To-pa.From >= 2 && pb.To-pb.From >= 2
+			}
 		}
 		return nil
 	}
@@ -289,7 +297,7 @@ func perms(n int) [][]int {
 }
 
 func run(c *enum.Ctx) {
-	c.Rule("every multiset of <=3 feature pairs over the 15 intervals [s,e) 0<=s<e<=5 on one location (thorough: 0..6, 21 intervals) and every multiset of <=2 pairs over two locations, in every insertion order, every orientation of each pair, with the four pair filters, the same after sequences of earlier Piles calls with other filters (partial, partial+nil, nil+partial; thorough also partial+none, all+partial), a repeated Piles call and a re-insertion of each pair in either orientation; reference = union-find over 'same location and overlapping or abutting'; distinct = (multiset, order, flips, filter); non-trivial = multisets with at least two features on one location that overlap or abut")
+	c.Rule("every multiset of <=3 feature pairs over the 15 intervals [s,e) 0<=s<e<=5 on one location (thorough: 0..6, 21 intervals) and every multiset of <=2 pairs over two locations, in every insertion order, every orientation of each pair, with the five pair filters (nil, all, none, by score, by the extent of the piles the images lie on), a pile of 2^k-1, 2^k, 2^k+1 images (7..257) joined to a neighbouring pile by one feature added last, first or in the middle, the same after sequences of earlier Piles calls with other filters (partial, partial+nil, nil+partial; thorough also partial+none, all+partial), a repeated Piles call and a re-insertion of each pair in either orientation; reference = union-find over 'same location and overlapping or abutting'; distinct = (multiset, order, flips, filter); non-trivial = multisets with at least two features on one location that overlap or abut")
 	maxE := 5
 	if !c.Quick {
 		maxE = 6
@@ -353,7 +361,7 @@ func run(c *enum.Ctx) {
 				for i := range fv {
 					fv[i] = fl>>i&1 == 1
 				}
-				for filt := 0; filt < 4; filt++ {
+				for filt := 0; filt < 5; filt++ {
 					if !full && filt > 0 {
 						continue
 					}
@@ -417,6 +425,39 @@ func run(c *enum.Ctx) {
 			doSet(i, []pr{pb[i], pb[j]}, true)
 		}
 	})
+	// the size ladder of the pile depth: a pile of 2^k-1, 2^k, 2^k+1 images on A[10,21) (mates far apart on
+	// B), a small pile on A[0,5), and one feature A[4,11) that joins the two - added last, first or in the
+	// middle; every filter
+	var deep []kase
+	for _, n := range enum.Ladder(7, 257) {
+		var ps []pr
+		for i := 0; i < n; i++ {
+			ps = append(ps, pr{ft{0, 10 + i%3, 19 + i%3}, ft{1, 100 * i, 100*i + 5}})
+		}
+		left := []pr{{ft{0, 0, 3}, ft{2, 50, 55}}, {ft{0, 2, 5}, ft{2, 60, 65}}}
+		bridge := pr{ft{0, 4, 11}, ft{2, 0, 3}}
+		orders := [][]pr{
+			append(append(append([]pr{}, left...), ps...), bridge),
+			append(append([]pr{bridge}, ps...), left...),
+			append(append(append(append([]pr{}, ps[:n/2]...), left...), bridge), ps[n/2:]...),
+			append(append(append([]pr{}, ps...), left...), bridge),
+		}
+		for _, o := range orders {
+			for filt := 0; filt < 5; filt++ {
+				deep = append(deep, kase{Pairs: o, Flip: make([]bool, len(o)), Filter: filt, Redo: -1})
+			}
+			deep = append(deep, kase{Pairs: o, Flip: make([]bool, len(o)), Filter: 0, Before: []int{3}, Redo: 0, RedoFlip: true})
+		}
+	}
+	enum.Parallel(len(deep), func(i int) {
+		k := deep[i]
+		k.slot = i
+		c.Eval()
+		trans.Add(int64(len(k.Pairs)))
+		check(c, k)
+		c.NontrivialH(enum.Hash64(enum.J(k)))
+	})
+	c.Set("deep_pile_cases", len(deep))
 	c.MC(states.Load(), trans.Load(), c.Evals())
 	c.Sample(kase{Pairs: []pr{pa[3], pa[40], pa[77]}, Flip: []bool{false, true, false}, Redo: -1})
 }
